@@ -47,6 +47,24 @@ obuf(gbuf *g, size_t len, const char *place, uint32_t salt)
         hidden_fill(g->p, len, salt);
 }
 
+/* input and output that touch without overlapping: out == in + len ("j") or in == out + len ("J"); one guarded region */
+static int
+joined_pair(gbuf *big, gbuf *in, gbuf *out, uint32_t b, uint64_t off, size_t len, const char *oplace, uint32_t salt)
+{
+        if (oplace[0] != 'j' && oplace[0] != 'J')
+                return 0;
+        int in_first = oplace[0] == 'j';
+        gbuf_alloc(big, 2 * len, in_first ? PL_END : PL_START, 0);
+        memset(in, 0, sizeof *in);
+        memset(out, 0, sizeof *out);
+        in->p = in_first ? big->p : big->p + len;
+        out->p = in_first ? big->p + len : big->p;
+        in->len = out->len = len;
+        pat_fill(in->p, b, off, len);
+        hidden_fill(out->p, len, salt);
+        return 1;
+}
+
 static int
 is_api(const char *fam)
 {
@@ -443,11 +461,15 @@ do_cbc(const cmd *c)
         hidden_fill(keys.p, keys.len, 43);
         expand(bits, key, kd->enc_keys, kd->dec_keys);
         pbuf(&iv, ib, io, 16, "a0");
-        pbuf(&in, db, dof, len, c->t[12]);
-        if (inpl)
-                out = in;
-        else
-                obuf(&out, len, c->t[13], 44);
+        gbuf big;
+        int joined = !inpl && joined_pair(&big, &in, &out, db, dof, len, c->t[13], 44);
+        if (!joined) {
+                pbuf(&in, db, dof, len, c->t[12]);
+                if (inpl)
+                        out = in;
+                else
+                        obuf(&out, len, c->t[13], 44);
+        }
         void *fn = is_api(fam) ? need("%saes_cbc_%s_%d", api_pre(fam), dir, bits) : need("_aes_cbc_%s_%d_%s", dir, bits, fam);
         int enc = !strcmp(dir, "enc");
         /* aes_cbc.h: keys = "length of key size * key rounds or dec_keys of isal_cbc_key_data": half of the calls pass a
@@ -466,7 +488,9 @@ do_cbc(const cmd *c)
                 vc_input("sched", &sched);
         vc_input("keys", &keys);
         vc_input("iv", &iv);
-        if (inpl)
+        if (joined)
+                vc_output("in+out", &big);
+        else if (inpl)
                 vc_output("inout", &out);
         else {
                 vc_input("in", &in);
@@ -489,6 +513,8 @@ do_cbc(const cmd *c)
                 gbuf_free(&sched);
         gbuf_free(&keys);
         gbuf_free(&iv);
+        if (joined)
+                gbuf_free(&big);
         gbuf_free(&in);
         if (!inpl)
                 gbuf_free(&out);
@@ -532,11 +558,15 @@ do_xts(const cmd *c)
                 memcpy(k2.p, e2, sched);
         }
         pbuf(&tw, tb, to, 16, c->t[19]);
-        pbuf(&in, db, dof, len, c->t[15]);
-        if (inpl)
-                out = in;
-        else
-                obuf(&out, len, c->t[16], 45);
+        gbuf big;
+        int joined = !inpl && joined_pair(&big, &in, &out, db, dof, len, c->t[16], 45);
+        if (!joined) {
+                pbuf(&in, db, dof, len, c->t[15]);
+                if (inpl)
+                        out = in;
+                else
+                        obuf(&out, len, c->t[16], 45);
+        }
         void *fn;
         const char *ek = exp ? "_expanded_key" : "";
         if (!strcmp(fam, "isal"))
@@ -552,13 +582,16 @@ do_xts(const cmd *c)
         vc_input("k1", &k1);
         vc_input("k2", &k2);
         vc_input("tweak", &tw);
-        if (inpl)
+        if (joined)
+                vc_output("in+out", &big);
+        else if (inpl)
                 vc_output("inout", &out);
         else {
                 vc_input("in", &in);
                 vc_output("out", &out);
         }
         uint64_t before = mem_sum(out.p, len);
+        uint64_t before_tail = len > 64 ? mem_sum(out.p + len - 64, 64) : 0;
         uint64_t r = vcall(fn, 6, a, &o);
         ev_begin("Xts");
         ev_str("fam", fam);
@@ -572,12 +605,21 @@ do_xts(const cmd *c)
         ev_int("inpl", inpl);
         ev_int("rc", !strcmp(fam, "isal") ? (long long) (int) r : 0);
         ev_int("untouched", o.fault ? 0 : before == mem_sum(out.p, len));
-        ev_hex("out", out.p, (o.fault || len < 16) ? 0 : len); /* below 16 bytes the call is a documented no-op */
+        if (len > (1u << 20)) {
+                /* very long data units (up to the legal maximum of 2^24 bytes): TLC checks the first three blocks, the return code
+                 * and that the end of the buffer was written at all */
+                ev_int("big", 1);
+                ev_int("tailwritten", o.fault ? 0 : before_tail != mem_sum(out.p + len - 64, 64));
+                ev_hex("out", out.p, o.fault ? 0 : 48);
+        } else
+                ev_hex("out", out.p, (o.fault || len < 16) ? 0 : len); /* below 16 bytes the call is a documented no-op */
         ev_obs(&o);
         ev_end();
         gbuf_free(&k1);
         gbuf_free(&k2);
         gbuf_free(&tw);
+        if (joined)
+                gbuf_free(&big);
         gbuf_free(&in);
         if (!inpl)
                 gbuf_free(&out);
